@@ -87,18 +87,33 @@ fn check(rep: &Report, acc: &mut Acc, d: &Desc, rank: u64, total_consistent_with
             enc.disable_re_use_label();
             let mut b = vec![0u8; want.len() + 3];
             match do_encap(&mut enc, &d.payload, 0, d.type_field, l, &mut b) {
-                EncOut::Completed(n) => Some(b[..n].to_vec()),
+                EncOut::Completed(n) => Some(b[..(n).min(b.len())].to_vec()),
                 _ => None,
             }
         }
         Kind::First => total_consistent_with_pdu.and_then(|plen| {
             let mut enc = Encapsulator::new(DefaultCrc {});
-            enc.disable_re_use_label();
             let mut pd = d.payload.clone();
             pd.resize(plen, 0x3C);
             let mut b = vec![0u8; want.len()];
-            match do_encap(&mut enc, &pd, d.frag_id, d.type_field, l, &mut b) {
-                EncOut::Fragmented(n, _) => Some(b[..n].to_vec()),
+            let out = if d.lt == 3 {
+                // a first fragment with a re-use label is what the encapsulator emits, with re-use enabled, for a PDU whose
+                // label equals that of the preceding packet: reach it that way (not by passing Label::ReUse)
+                let mut scratch = [0u8; 32];
+                let _ = do_encap(&mut enc, &[0x42], 0, 0x0800, L3B, &mut scratch);
+                do_encap(&mut enc, &pd, d.frag_id, d.type_field, L3B, &mut b)
+            } else {
+                enc.disable_re_use_label();
+                do_encap(&mut enc, &pd, d.frag_id, d.type_field, l, &mut b)
+            };
+            match out {
+                EncOut::Fragmented(n, _) => Some(b[..(n).min(b.len())].to_vec()),
+                EncOut::Err(e) if want.len() >= 13 => {
+                    // the description is well-formed, its PDU fits the 16-bit total length and the buffer has the 13 bytes
+                    // every sender accepts: the encapsulator has to emit it
+                    viol(rep, &format!("C20|encapsulator-refuses|{}|{}", kn, e), rank, format!("the encapsulator answers {} for a PDU of {} bytes (total length {}) in a buffer of {} bytes where generate() gives {}", e, plen, d.total_len, want.len(), hexs(&bytes[..bytes.len().min(24)])), d);
+                    None
+                }
                 _ => None,
             }
         }),
@@ -112,7 +127,7 @@ fn check(rep: &Report, acc: &mut Acc, d: &Desc, rank: u64, total_consistent_with
                 pd.extend_from_slice(&[0x5B; 9]);
                 let mut b = vec![0u8; want.len()];
                 match do_encap_frag(&enc, &pd, Ctx { id: d.frag_id, crc: 1, pos: 3 }, &mut b) {
-                    EncOut::Fragmented(n, _) => Some(b[..n].to_vec()),
+                    EncOut::Fragmented(n, _) => Some(b[..(n).min(b.len())].to_vec()),
                     _ => None,
                 }
             }
@@ -123,7 +138,7 @@ fn check(rep: &Report, acc: &mut Acc, d: &Desc, rank: u64, total_consistent_with
             pd.extend_from_slice(&d.payload);
             let mut b = vec![0u8; want.len() + 5];
             match do_encap_frag(&enc, &pd, Ctx { id: d.frag_id, crc: d.crc, pos: 3 }, &mut b) {
-                EncOut::Completed(n) => Some(b[..n].to_vec()),
+                EncOut::Completed(n) => Some(b[..(n).min(b.len())].to_vec()),
                 _ => None,
             }
         }
@@ -260,7 +275,7 @@ fn check(rep: &Report, acc: &mut Acc, d: &Desc, rank: u64, total_consistent_with
 
 pub fn run(tier: Tier) -> i32 {
     let rep = Report::new("C20", tier);
-    rep.set_rule("lattice of well-formed packet descriptions: 4 kinds x labels {6B, 3B, broadcast, re-use (complete/first)} x payload lengths (quick: 0..=64 and 3990..=4000 and every 37th; thorough: all 0..=4000 within the 12-bit GSE length) x fragment ids (all 256 for payloads <= 4, else 3) x protocol types {0x0600, 0x0800, 0xFFFF} x total length {consistent, payload+1, 0xFFFF} x CRC {0, 0xFFFFFFFF, 0xDEADBEEF, true value}; all payload contents of length <= 1; clauses: parse(generate(d)) == d, generate(d) == reference printer, == the bytes the real encapsulator emits for the same fields, the real decapsulator reads the same field values (context primed for continuation packets; the CRC field is located by 'delivered iff CRC is the true one'); distinct = (kind, label type)");
+    rep.set_rule("lattice of well-formed packet descriptions: 4 kinds x labels {6B, 3B, broadcast, re-use (complete/first)} x payload lengths (quick: 0..=64 and 3990..=4000 and every 37th; thorough: all 0..=4000 within the 12-bit GSE length) x fragment ids (all 256 for payloads <= 4, else 3) x protocol types {0x0600, 0x0800, 0xFFFF} x total length {consistent, payload+1, 0xFFFF, and PDUs within 7 bytes of the 16-bit limit} x CRC {0, 0xFFFFFFFF, 0xDEADBEEF, true value}; all payload contents of length <= 1; clauses: parse(generate(d)) == d, generate(d) == reference printer, == the bytes the real encapsulator emits for the same fields (re-use first fragments reached through the encapsulator's own substitution; a refusal of a well-formed first fragment is a violation), the real decapsulator reads the same field values (context primed for continuation packets; the CRC field is located by 'delivered iff CRC is the true one'); distinct = (kind, label type)");
     let lens: Vec<usize> = if tier.thorough() { (0..=4000).collect() } else { uniq((0..=64).chain(3990..=4000).chain((0..=4000).step_by(37)).collect()) };
     lens.par_iter().for_each(|&n| {
         if rep.over_time() {
@@ -287,6 +302,15 @@ pub fn run(tier: Tier) -> i32 {
                             let consistent_pdu = n + 7;
                             for (ti, total) in [(2 + l.wire_len() + consistent_pdu) as u16, (n + 1) as u16, 0xFFFF].into_iter().enumerate() {
                                 check(&rep, &mut acc, &Desc::first(l, pt, fid, total, payload), n as u64, if ti == 0 { Some(consistent_pdu) } else { None });
+                            }
+                            // PDUs at the limit of the 16-bit total length (which counts the label AS WRITTEN)
+                            if (6..=8).contains(&n) && fid == fids[0] && pt == 0x0800 {
+                                for back in [0usize, 1, 3, 6, 7] {
+                                    let big = 65533 - l.wire_len() - back;
+                                    if big > n + 8 {
+                                        check(&rep, &mut acc, &Desc::first(l, pt, fid, (2 + l.wire_len() + big) as u16, payload), n as u64, Some(big));
+                                    }
+                                }
                             }
                         }
                     }
